@@ -14,7 +14,7 @@ RULE = ("read()/write() calls of 1-40 requests mixing VALID requests (judged as 
         "last/all/alternating/random), with sizes that spread the requests over several multi-service packets, fragmented transfers and "
         "bit-write groups, on every controller configuration; oracle: arity/shape (single Tag iff n=1), i-th Tag answers the i-th request "
         "(name, value), invalid -> falsy Tag with non-empty error and no exception, valid requests unaffected (values / memory), "
-        "bool(Tag) == (value is not None and error is None). A separate robustness census of undocumented shapes is tabulated, never judged. "
+        "bool(Tag) == (value is not None and error is None); the request values handed to write() (incl. over-long lists) are unchanged after the call. A separate robustness census of undocumented shapes is tabulated, never judged. "
         "distinct = (op, n, invalid class, position class, config, packets used) evaluated")
 ASSUMPTIONS = [
     "request shapes the documentation leaves undefined (bit of a REAL, {0}, {n} or index on a scalar, negative index, whitespace, bit >= width) are outside the judged calls",
